@@ -96,7 +96,8 @@ def cq_task(t):
 
 def cq_mis(obs):
     """per operation / sync: positions in its log of the API calls whose pushed servers differ from the file"""
-    return C.cq_list([cq_nats([i for i, e in enumerate(o["log"] or []) if e.get("e") == "a" and e.get("mis")]) for o in obs])
+    return C.cq_list([cq_nats([i for i, e in enumerate(o["log"] or [])
+                                if (e.get("e") == "a" and e.get("mis")) or (e.get("e") == "w" and e.get("unpushed"))]) for o in obs])
 
 
 def cq_fix(c):
@@ -224,10 +225,10 @@ def judge(run, cases, res):
             s1, s2, s4, s5 = row[6:10]
             if s5 >= 0:
                 site = op_site(c["ops"][s5])
-                bad = [e for e in c["obs"][s5]["log"] if e.get("mis")]
+                bad = [e for e in c["obs"][s5]["log"] if e.get("mis") or e.get("unpushed")]
                 run.failing({"kind": "api-push-differs-from-file", "site": site}, [shrink_cfg(c, s5)],
-                            "case %d op %d (%s) wrote the file, pushed a different server list for the same upstream through the Plus API, "
-                            "the call succeeded and no reload followed: %s" % (cid, s5, site, json.dumps(bad)[:400]),
+                            "case %d op %d (%s) wrote the file and used the Plus API instead of a reload, but an upstream whose servers changed in the file "
+                            "was pushed with different servers or not pushed at all: %s" % (cid, s5, site, json.dumps(bad)[:400]),
                             theorem="Reload.Cases.push_same_ok (C12: pushes the same change through the API)")
             if s1 >= 0:
                 site = op_site(c["ops"][s1])
